@@ -198,7 +198,9 @@ pub fn run(ctx: &Ctx, rep: &mut Report) {
     rep.trusted_base = vec!["reference model of outstanding streams written from the property statement".into()];
     rep.assumptions = vec!["the order of reader/writer/orphaner effects on the map is generated; their interleaving inside the router task is whatever tokio does (sampled by the end-to-end half)".into()];
     if let Some((check, case_v)) = &ctx.replay {
-        replay_case::<Case, _>(rep, check, case_v, oracle);
+        if !super::c02_e2e::replay(rep, check, case_v) {
+            replay_case::<Case, _>(rep, check, case_v, oracle);
+        }
         return;
     }
     run_prop_par(
@@ -212,4 +214,5 @@ pub fn run(ctx: &Ctx, rep: &mut Report) {
         oracle,
     );
     run_prop_par(rep, "exhaustion", ctx.tier.pick(64, 2_000), ncpu(), exhaustion_case, oracle);
+    super::c02_e2e::run(ctx, rep);
 }
